@@ -14,6 +14,13 @@ def run(prog, chk, tier):
                        "the body is verified and decrypted with; the registered cipher's decrypt is length preserving (the static fact behind 'keys ending in 0x00'); "
                        "the ENC tag comparison is type consistent so that the encrypted configuration component is decrypted on read. Value equality of an executed round "
                        "trip is not decided.")
+    from rules import state as _state
+
+    _state.library_state_rules(prog, chk, "C02")
+    from rules import iteronce as _iteronce
+    from rules.state import LIB_MODULES as _LIB
+
+    _iteronce.iterable_rules(prog, chk, "C02", _LIB)
     bec2.header_writer_rules(prog, chk, "C02")
     hdr = bec2.header_reader_rules(prog, chk, "C02")
     bec2.key_flow_rules(prog, chk, "C02", hdr)
